@@ -1,4 +1,516 @@
-//! C05 monitor (not written yet).
-pub fn run(_ctx: &crate::ctx::Ctx, report: &mut vcore::Report) {
-    report.notes.push("stub".into());
+//! C05 – servers reject and clients ignore unknown object fields at every nesting depth.
+//!
+//! Workload: `Node` trees (and a few root types that place a struct directly below a list,
+//! option, map, newtype or another struct). For one struct position per case, one to three
+//! members the struct does not declare are injected into the *document* (JSON text or Smile DOM
+//! re-encoded with plain serde_smile). Oracle: server deserializers return an error that names an
+//! injected member; client deserializers return exactly the value of the uninjected document.
+use crate::ctx::{guarded, Ctx};
+use crate::node::*;
+use conjure_object::DoubleKey;
+use conjure_serde::{json, smile};
+use serde::de::DeserializeOwned;
+use serde::{Deserialize, Serialize};
+use serde_json::json;
+use serde_smile::value::Value as S;
+use std::collections::BTreeMap;
+use vcore::json::J;
+use vcore::rng::fnv;
+use vcore::text::hostile_string;
+use vcore::{Report, Rng};
+
+#[derive(Clone, Copy, Debug)]
+enum Step {
+    /// i-th member of an object (serialization order)
+    Member(usize),
+    Idx(usize),
+}
+
+/// A struct position: DOM path and the chain of container kinds above it.
+struct Pos {
+    path: Vec<Step>,
+    chain: Vec<&'static str>,
+}
+
+fn with(prefix: &[Step], more: &[Step]) -> Vec<Step> {
+    let mut p = prefix.to_vec();
+    p.extend_from_slice(more);
+    p
+}
+
+/// Collects the DOM paths of every named-struct object inside `n` (whose own DOM sits at
+/// `prefix`), mirroring the serde data-model mapping of `Node`.
+fn rec_paths(n: &Node, prefix: &[Step], chain: &mut Vec<&'static str>, out: &mut Vec<Pos>) {
+    use Step::*;
+    let inner = with(prefix, &[Member(0)]); // payload of the externally tagged variant
+    chain.push(n.kind());
+    match n {
+        Node::Opt(Some(c)) => rec_paths(c, &inner, chain, out),
+        Node::List(v) | Node::Seeded(SeededList(v)) => {
+            for (i, c) in v.iter().enumerate() {
+                rec_paths(c, &with(&inner, &[Idx(i)]), chain, out);
+            }
+        }
+        Node::Set(v) => {
+            for (i, c) in v.iter().enumerate() {
+                rec_paths(c, &with(&inner, &[Idx(i)]), chain, out);
+            }
+        }
+        Node::Struct(r) => rec_at(r, &inner, chain, out),
+        Node::Newtype(w) => rec_paths(&w.0, &inner, chain, out),
+        Node::TupleStruct(p) => rec_paths(&p.0, &with(&inner, &[Idx(0)]), chain, out),
+        Node::Tuple(t) => {
+            rec_paths(&t.0, &with(&inner, &[Idx(0)]), chain, out);
+            rec_paths(&t.1, &with(&inner, &[Idx(1)]), chain, out);
+        }
+        Node::TupleVar(a, b) => {
+            rec_paths(a, &with(&inner, &[Idx(0)]), chain, out);
+            rec_paths(b, &with(&inner, &[Idx(1)]), chain, out);
+        }
+        Node::StructVar { x, y } => {
+            rec_paths(x, &with(&inner, &[Member(0)]), chain, out);
+            if let Some(y) = y {
+                rec_paths(y, &with(&inner, &[Member(1)]), chain, out);
+            }
+        }
+        Node::MapStr(m) => map_paths(m.values(), &inner, chain, out),
+        Node::MapI32(m) => map_paths(m.values(), &inner, chain, out),
+        Node::MapI64(m) => map_paths(m.values(), &inner, chain, out),
+        Node::MapSafe(m) => map_paths(m.values(), &inner, chain, out),
+        Node::MapF64(m) => map_paths(m.values(), &inner, chain, out),
+        Node::MapBool(m) => map_paths(m.values(), &inner, chain, out),
+        Node::MapUuid(m) => map_paths(m.values(), &inner, chain, out),
+        Node::MapRid(m) => map_paths(m.values(), &inner, chain, out),
+        Node::MapToken(m) => map_paths(m.values(), &inner, chain, out),
+        Node::MapTime(m) => map_paths(m.values(), &inner, chain, out),
+        Node::MapBin(m) => map_paths(m.values(), &inner, chain, out),
+        Node::MapColor(m) => map_paths(m.values(), &inner, chain, out),
+        Node::MapWrapKey(m) => map_paths(m.values(), &inner, chain, out),
+        _ => {}
+    }
+    chain.pop();
+}
+
+fn map_paths<'a>(
+    vals: impl Iterator<Item = &'a Node>,
+    inner: &[Step],
+    chain: &mut Vec<&'static str>,
+    out: &mut Vec<Pos>,
+) {
+    for (i, c) in vals.enumerate() {
+        rec_paths(c, &with(inner, &[Step::Member(i)]), chain, out);
+    }
+}
+
+/// `at` is the DOM path of the object of `r` itself.
+fn rec_at(r: &Rec, at: &[Step], chain: &mut Vec<&'static str>, out: &mut Vec<Pos>) {
+    use Step::*;
+    out.push(Pos { path: at.to_vec(), chain: chain.clone() });
+    chain.push("Struct.field");
+    rec_paths(&r.first, &with(at, &[Member(0)]), chain, out);
+    if let Some(o) = &r.opt {
+        rec_paths(o, &with(at, &[Member(1)]), chain, out);
+    }
+    for (i, c) in r.list.iter().enumerate() {
+        rec_paths(c, &with(at, &[Member(2), Idx(i)]), chain, out);
+    }
+    chain.pop();
+}
+
+// Root types that put a struct directly below another serde construct (no enum tag between).
+#[derive(Serialize, Deserialize, Clone, Debug, PartialEq)]
+struct Outer {
+    inner: Rec2,
+    items: Vec<Rec2>,
+    maybe: Option<Rec2>,
+    #[serde(rename = "by-key")]
+    by_key: BTreeMap<DoubleKey, Rec2>,
+    alias: Wrap2,
+}
+
+#[derive(Serialize, Deserialize, Clone, Debug, PartialEq)]
+struct Rec2 {
+    node: Node,
+    #[serde(rename = "type")]
+    type_: i32,
+}
+
+#[derive(Serialize, Deserialize, Clone, Debug, PartialEq)]
+struct Wrap2(Rec2);
+
+fn gen_rec2(r: &mut Rng, depth: usize) -> Rec2 {
+    Rec2 { node: gen_node(r, depth), type_: vcore::text::hostile_i32(r) }
+}
+
+fn rec2_paths(v: &Rec2, at: &[Step], chain: &mut Vec<&'static str>, out: &mut Vec<Pos>) {
+    out.push(Pos { path: at.to_vec(), chain: chain.clone() });
+    chain.push("Rec2.field");
+    rec_paths(&v.node, &with(at, &[Step::Member(0)]), chain, out);
+    chain.pop();
+}
+
+fn outer_paths(o: &Outer) -> Vec<Pos> {
+    use Step::*;
+    let mut out = vec![];
+    out.push(Pos { path: vec![], chain: vec!["root"] });
+    let mut chain = vec!["Outer.field"];
+    rec2_paths(&o.inner, &[Member(0)], &mut chain, &mut out);
+    chain = vec!["Outer.list"];
+    for (i, r) in o.items.iter().enumerate() {
+        rec2_paths(r, &[Member(1), Idx(i)], &mut chain, &mut out);
+    }
+    if let Some(r) = &o.maybe {
+        chain = vec!["Outer.option"];
+        rec2_paths(r, &[Member(2)], &mut chain, &mut out);
+    }
+    chain = vec!["Outer.map"];
+    for (i, r) in o.by_key.values().enumerate() {
+        rec2_paths(r, &[Member(3), Member(i)], &mut chain, &mut out);
+    }
+    chain = vec!["Outer.alias"];
+    rec2_paths(&o.alias.0, &[Member(4)], &mut chain, &mut out);
+    out
+}
+
+// ---- DOM navigation / injection
+
+fn j_at<'a>(j: &'a mut J, path: &[Step]) -> Option<&'a mut Vec<(String, J)>> {
+    let mut cur = j;
+    for s in path {
+        cur = match (s, cur) {
+            (Step::Member(i), J::Obj(m)) => &mut m.get_mut(*i)?.1,
+            (Step::Idx(i), J::Arr(a)) => a.get_mut(*i)?,
+            _ => return None,
+        };
+    }
+    match cur {
+        J::Obj(m) => Some(m),
+        _ => None,
+    }
+}
+
+fn s_at<'a>(s: &'a mut S, path: &[Step]) -> Option<&'a mut S> {
+    let mut cur = s;
+    for st in path {
+        cur = match (st, cur) {
+            (Step::Member(i), S::Object(m)) => m.get_index_mut(*i)?.1,
+            (Step::Idx(i), S::Array(a)) => a.get_mut(*i)?,
+            _ => return None,
+        };
+    }
+    Some(cur)
+}
+
+fn j_to_s(j: &J) -> S {
+    match j {
+        J::Null => S::Null,
+        J::Bool(b) => S::Boolean(*b),
+        J::Num(n) => match n.parse::<i64>() {
+            Ok(i) if i32::try_from(i).is_ok() => S::Integer(i as i32),
+            Ok(i) => S::Long(i),
+            Err(_) => S::Double(n.parse().unwrap_or(0.0)),
+        },
+        J::Str(s) => {
+            if s == "binary!" {
+                S::Binary(vec![0, 0xff, 0x80, 7])
+            } else {
+                S::String(s.clone())
+            }
+        }
+        J::Arr(a) => S::Array(a.iter().map(j_to_s).collect()),
+        J::Obj(m) => S::Object(m.iter().map(|(k, v)| (k.clone(), j_to_s(v))).collect()),
+    }
+}
+
+fn payload(r: &mut Rng, depth: usize) -> (J, &'static str) {
+    match r.below(if depth == 0 { 7 } else { 10 }) {
+        0 => (J::Null, "null"),
+        1 => (J::Bool(r.bool()), "bool"),
+        2 => (J::Num(r.range(-5, 1 << 40).to_string()), "int"),
+        3 => (J::Num("-1.5e-7".into()), "float"),
+        4 => (J::Str(r.pick(&["NaN", "Infinity", "", "AA==", "binary!", "x"]).to_string()), "string"),
+        5 => (J::Str(hostile_string(r, 10)), "string"),
+        6 => (J::Arr(vec![]), "array"),
+        7 => (J::Arr((0..1 + r.below(3)).map(|_| payload(r, depth - 1).0).collect()), "array"),
+        8 => (
+            J::Obj(
+                (0..r.below(3))
+                    .map(|i| (format!("{}{}", r.pick(&["first", "k", "type", "Struct"]), i), payload(r, depth - 1).0))
+                    .collect(),
+            ),
+            "object",
+        ),
+        // an object that looks like a complete struct of the same type
+        _ => (
+            J::Obj(vec![("first".into(), J::Str("Unit".into())), ("num".into(), J::Num("1".into()))]),
+            "object",
+        ),
+    }
+}
+
+const NAMES: &[&str] = &[
+    "zzUnknown", "extra-field", "x", "y", "Struct", "First", "first ", "opt_field", "list", "inner",
+    "node", "type_", "0", "null", "__proto__", "fïrst", "by-key", "items", "id ", "NUM",
+];
+
+struct Injection {
+    names: Vec<String>,
+    kinds: Vec<&'static str>,
+    where_: &'static str,
+}
+
+/// Inserts 1..=3 undeclared members into the object member list, returns what was injected.
+fn inject(r: &mut Rng, declared: &[String], members: usize) -> (Vec<(usize, String, J)>, Injection) {
+    let count = 1 + r.below(3);
+    let mut ins = vec![];
+    let mut names = vec![];
+    let mut kinds = vec![];
+    let where_ = *r.pick(&["first", "middle", "last"]);
+    for _ in 0..count {
+        let mut name = if r.chance(1, 3) {
+            format!("u{}", vcore::text::alnum(r, 6))
+        } else {
+            r.pick(NAMES).to_string()
+        };
+        while declared.contains(&name) || names.contains(&name) {
+            name.push('_');
+        }
+        let (p, kind) = payload(r, 2);
+        let at = match where_ {
+            "first" => 0,
+            "last" => members,
+            _ => r.below(members + 1),
+        };
+        ins.push((at, name.clone(), p));
+        names.push(name);
+        kinds.push(kind);
+    }
+    (ins, Injection { names, kinds, where_ })
+}
+
+struct Env<'a> {
+    rep: &'a mut Report,
+    sub: &'a str,
+    seed: u64,
+    chain: String,
+    inj: Injection,
+    doc: String,
+}
+
+impl Env<'_> {
+    fn sig_base(&self, cell: &str) -> String {
+        format!("{}|{}|{}|{}", cell, self.chain, self.inj.kinds.join("+"), self.inj.where_)
+    }
+
+    fn fail(&mut self, cell: &str, what: &str, info: String) {
+        self.rep.violation(
+            self.sub,
+            self.seed,
+            format!("{}:{}", cell, what),
+            json!({"cell": cell, "what": what, "chain": self.chain, "injected": self.inj.names,
+                   "position": self.inj.where_, "document": trunc(&self.doc), "info": trunc(&info)}),
+        );
+    }
+
+    fn server<T: std::fmt::Debug>(&mut self, cell: &str, f: impl FnOnce() -> Result<T, String>) {
+        self.rep.evaluations += 1;
+        self.rep.cell(cell);
+        self.rep.distinct.insert(fnv(&self.sig_base(cell)));
+        match guarded(f) {
+            Err(p) => self.fail(cell, "panic", p),
+            Ok(Ok(v)) => self.fail(cell, "server-accepted-unknown-field", trunc(&format!("{:?}", v))),
+            Ok(Err(msg)) => {
+                if !self.inj.names.iter().any(|n| msg.contains(n.as_str())) {
+                    self.fail(cell, "server-error-does-not-name-field", msg);
+                }
+            }
+        }
+    }
+
+    fn client<T: PartialEq + std::fmt::Debug>(
+        &mut self,
+        cell: &str,
+        want: &T,
+        f: impl FnOnce() -> Result<T, String>,
+    ) {
+        self.rep.evaluations += 1;
+        self.rep.cell(cell);
+        self.rep.distinct.insert(fnv(&self.sig_base(cell)));
+        match guarded(f) {
+            Err(p) => self.fail(cell, "panic", p),
+            Ok(Err(e)) => self.fail(cell, "client-rejected-unknown-field", e),
+            Ok(Ok(v)) => {
+                if v != *want {
+                    self.fail(cell, "client-value-differs", trunc(&format!("{:?}", v)));
+                }
+            }
+        }
+    }
+}
+
+fn run_one<T>(rep: &mut Report, sub: &str, seed: u64, r: &mut Rng, value: &T, positions: Vec<Pos>)
+where
+    T: Serialize + DeserializeOwned + PartialEq + std::fmt::Debug,
+{
+    if positions.is_empty() {
+        rep.cell("skipped/no-struct-in-tree");
+        return;
+    }
+    let pos = &positions[r.below(positions.len())];
+    let chain: Vec<&str> = pos.chain.iter().rev().take(3).rev().cloned().collect();
+    let chain = chain.join(">");
+
+    // ---- JSON
+    let text = match json::to_string(value) {
+        Ok(t) => t,
+        Err(e) => {
+            rep.violation(sub, seed, "json/encode-error", json!({"info": e.to_string()}));
+            return;
+        }
+    };
+    let mut dom = vcore::json::parse(text.as_bytes()).expect("C01 guarantees standard JSON");
+    let base: T = match json::client_from_str(&text) {
+        Ok(v) => v,
+        Err(e) => {
+            rep.violation(sub, seed, "json/baseline-decode-error", json!({"doc": trunc(&text), "info": e.to_string()}));
+            return;
+        }
+    };
+    let members = match j_at(&mut dom, &pos.path) {
+        Some(m) => m,
+        None => {
+            rep.violation(sub, seed, "harness/path-miss", json!({"doc": trunc(&text)}));
+            return;
+        }
+    };
+    let declared: Vec<String> = members.iter().map(|(k, _)| k.clone()).collect();
+    let (ins, inj) = inject(r, &declared, members.len());
+    for (at, name, p) in &ins {
+        let at = (*at).min(members.len());
+        members.insert(at, (name.clone(), p.clone()));
+    }
+    let doc = vcore::json::render(&dom);
+    let bytes = doc.clone().into_bytes();
+    let mut env = Env { rep, sub, seed, chain, inj, doc: doc.clone() };
+    env.rep.sample(4, || json!({"sub": sub, "case_seed": seed, "format": "json", "document": trunc(&doc)}));
+    env.server("json/server/str", || json::server_from_str::<T>(&doc).map_err(|e| e.to_string()));
+    env.server("json/server/slice", || json::server_from_slice::<T>(&bytes).map_err(|e| e.to_string()));
+    env.server("json/server/reader", || json::server_from_reader::<_, T>(&bytes[..]).map_err(|e| e.to_string()));
+    env.client("json/client/str", &base, || json::client_from_str::<T>(&doc).map_err(|e| e.to_string()));
+    env.client("json/client/slice", &base, || json::client_from_slice::<T>(&bytes).map_err(|e| e.to_string()));
+    env.client("json/client/reader", &base, || json::client_from_reader::<_, T>(&bytes[..]).map_err(|e| e.to_string()));
+
+    // ---- Smile: same injection into the Smile DOM, re-encoded with plain serde_smile
+    let sbytes = match smile::to_vec(value) {
+        Ok(b) => b,
+        Err(e) => {
+            env.fail("smile/encode", "encode-error", e.to_string());
+            return;
+        }
+    };
+    let sbase: T = match smile::client_from_slice(&sbytes) {
+        Ok(v) => v,
+        Err(e) => {
+            env.fail("smile/baseline", "baseline-decode-error", e.to_string());
+            return;
+        }
+    };
+    let mut sdom: S = match serde_smile::from_slice(&sbytes) {
+        Ok(d) => d,
+        Err(e) => {
+            env.fail("smile/baseline", "not-smile", e.to_string());
+            return;
+        }
+    };
+    match s_at(&mut sdom, &pos.path) {
+        Some(S::Object(m)) => {
+            for (at, name, p) in &ins {
+                let at = (*at).min(m.len());
+                m.shift_insert(at, name.clone(), j_to_s(p));
+            }
+        }
+        _ => {
+            env.fail("smile/baseline", "harness-path-miss", String::new());
+            return;
+        }
+    }
+    let mut out = vec![];
+    {
+        let mut ser = serde_smile::Serializer::builder().raw_binary(true).build(&mut out);
+        if let Err(e) = sdom.serialize(&mut ser) {
+            env.rep.observed_only("smile-reencode-failed");
+            let _ = e;
+            return;
+        }
+    }
+    env.doc = format!("smile:{}", trunc(&format!("{:?}", sdom)));
+    env.server("smile/server/slice", || smile::server_from_slice::<T>(&out).map_err(|e| e.to_string()));
+    env.server("smile/server/mut_slice", || {
+        let mut b = out.clone();
+        smile::server_from_mut_slice::<T>(&mut b).map_err(|e| e.to_string())
+    });
+    env.server("smile/server/reader", || smile::server_from_reader::<_, T>(&out[..]).map_err(|e| e.to_string()));
+    env.client("smile/client/slice", &sbase, || smile::client_from_slice::<T>(&out).map_err(|e| e.to_string()));
+    env.client("smile/client/mut_slice", &sbase, || {
+        let mut b = out.clone();
+        smile::client_from_mut_slice::<T>(&mut b).map_err(|e| e.to_string())
+    });
+    env.client("smile/client/reader", &sbase, || smile::client_from_reader::<_, T>(&out[..]).map_err(|e| e.to_string()));
+}
+
+pub fn run(ctx: &Ctx, report: &mut Report) {
+    let depth = if ctx.thorough { 8 } else { 6 };
+    ctx.cases(report, "trees", ctx.n(40_000, 2_000_000), |seed, rep| {
+        let mut r = Rng::new(seed);
+        // bias towards trees that contain a struct: wrap a random tree in a struct half the time
+        let d = 1 + r.below(depth);
+        let mut n = gen_node(&mut r, d);
+        if r.bool() {
+            n = Node::Struct(Box::new(Rec {
+                first: n,
+                opt: if r.bool() { Some(gen_node(&mut r, 2)) } else { None },
+                list: (0..r.below(3)).map(|_| gen_node(&mut r, 2)).collect(),
+                num: vcore::text::hostile_f64(&mut r),
+                id: gen_uuid(&mut r),
+            }));
+            if r.bool() {
+                n = match r.below(6) {
+                    0 => Node::Opt(Some(Box::new(n))),
+                    1 => Node::List(vec![gen_node(&mut r, 1), n]),
+                    2 => Node::Set([n].into_iter().collect()),
+                    3 => Node::MapF64([(DoubleKey(vcore::text::hostile_f64(&mut r)), n)].into_iter().collect()),
+                    4 => Node::Newtype(Box::new(Wrap(n))),
+                    _ => Node::StructVar { x: Box::new(n), y: None },
+                };
+            }
+        }
+        let mut positions = vec![];
+        rec_paths(&n, &[], &mut vec![], &mut positions);
+        run_one(rep, "trees", seed, &mut r, &n, positions);
+    });
+    ctx.cases(report, "direct", ctx.n(20_000, 1_000_000), |seed, rep| {
+        let mut r = Rng::new(seed);
+        let d = r.below(4);
+        let o = Outer {
+            inner: gen_rec2(&mut r, d),
+            items: (0..r.below(3)).map(|_| gen_rec2(&mut r, d)).collect(),
+            maybe: if r.bool() { Some(gen_rec2(&mut r, d)) } else { None },
+            by_key: (0..r.below(3))
+                .map(|_| (DoubleKey(vcore::text::hostile_f64(&mut r)), gen_rec2(&mut r, d)))
+                .collect(),
+            alias: Wrap2(gen_rec2(&mut r, d)),
+        };
+        let positions = outer_paths(&o);
+        run_one(rep, "direct", seed, &mut r, &o, positions);
+    });
+    if ctx.replay.is_none() {
+        report.floor_cells("json-cells", "json/", 6);
+        report.floor_cells("smile-cells", "smile/", 6);
+        let d = report.distinct.len() as u64;
+        report.floor("distinct-contexts", if ctx.scale >= 1.0 { 3000 } else { 50 }, d);
+    }
+    report.observed_only.entry("struct-variant-and-tuple-positions(not injected)".into()).or_insert(0);
+    report.notes.push(
+        "distinct = distinct (format/side/source cell, container chain above the struct (last 4), injected payload kinds, position)".into(),
+    );
 }
